@@ -353,6 +353,9 @@ func (f *destinationTripper) RoundTrip(r *http.Request) (*http.Response, error) 
 	resolutionResults := []ResolutionResult{}
 
 retryResolution:
+	// Start from nothing: on the retry the entry has been deleted from the cache and the
+	// name has to be resolved again, not the destinations that just failed tried once more.
+	resolutionResults = nil
 	if f.wellKnownSRV {
 		if cached, ok := f.resolutionCache.Load(serverName); ok {
 			if results, ok := cached.([]ResolutionResult); ok {
